@@ -202,8 +202,14 @@ struct TwinU {
     ctx: Ctx,
     direct: UistServer,
     json: UistServer,
+    /// third twin: the shipped in-process client `TestClient` (it owns its AppState privately, so only
+    /// its answers can be compared; it can only be built with `single`)
+    tc: Option<rotala::http::uist::uistv1_client::TestClient>,
     bts: Vec<u64>,
     next_tag: u64,
+    /// the direct twin's answer to the current op: Ok(id or 0) / Err(400), and a canonical text
+    last_direct: Result<u64, i32>,
+    last_direct_txt: String,
 }
 
 fn digest_u(s: &UistServer) -> u64 {
@@ -240,8 +246,78 @@ impl TwinU {
             ctx: Ctx::new(focus, keep_text),
             direct: build_u(case.single, &case.datasets, Path::Direct),
             json: build_u(case.single, &case.datasets, Path::Json),
+            tc: if case.single { Some(rotala::http::uist::uistv1_client::TestClient::single(&case.datasets[0].name, case.datasets[0].build())) } else { None },
             bts: if case.single { vec![0] } else { vec![] },
             next_tag: 1,
+            last_direct: Ok(0),
+            last_direct_txt: String::new(),
+        }
+    }
+
+    /// The same request through `TestClient`; its answer must be the in-process answer.
+    fn test_client_twin(&mut self, op: &Op<OrderSpec>) {
+        use crate::exec::block_on;
+        use rotala::http::uist::uistv1_client::UistClient;
+        let Some(tc) = self.tc.as_mut() else { return };
+        let fmt_trades = |t: &[rotala::exchange::uist_v1::Trade]| t.iter().map(crate::e1u_model::fmt_trade).collect::<Vec<_>>().join(",");
+        let fmt_orders = |o: &[rotala::exchange::uist_v1::Order]| o.iter().map(crate::e1u_model::fmt_order).collect::<Vec<_>>().join(",");
+        // replay on a scratch copy of the direct twin is not possible (it already executed the op), so the
+        // TestClient answer is compared with what the direct twin answered for this very op: both are
+        // recomputed here from their own state, which went through the same history
+        let (mine, theirs): (String, String) = match op {
+            Op::Init { dataset, .. } => (
+                format!("{:?}", self.last_direct.clone()),
+                format!("{:?}", block_on(tc.init(dataset.clone())).map(|r| r.backtest_id).map_err(|_| 400)),
+            ),
+            Op::Insert { bt, order, .. } => {
+                let body = serde_json::to_string(&crate::server::UInsertReq { order: order.to_sut() }).unwrap();
+                let decoded: crate::server::UInsertReq = serde_json::from_str(&body).unwrap();
+                (format!("{:?}", self.last_direct.clone()), format!("{:?}", block_on(tc.insert_order(decoded.order, *bt)).map(|_| 0u64).map_err(|_| 400)))
+            }
+            Op::Delete { bt, id, .. } => (format!("{:?}", self.last_direct.clone()), format!("{:?}", block_on(tc.delete_order(*id, *bt)).map(|_| 0u64).map_err(|_| 400))),
+            Op::Tick { bt, .. } => (
+                self.last_direct_txt.clone(),
+                match block_on(tc.tick(*bt)) {
+                    Ok(r) => format!("has_next={} trades=[{}] admitted=[{}]", r.has_next, fmt_trades(&r.executed_trades), fmt_orders(&r.inserted_orders)),
+                    Err(_) => "rejected".to_string(),
+                },
+            ),
+            Op::Fetch { bt, .. } => (
+                self.last_direct_txt.clone(),
+                match block_on(tc.fetch_quotes(*bt)) {
+                    Ok(r) => crate::e1u::canon_quotes(&r.quotes),
+                    Err(_) => "rejected".to_string(),
+                },
+            ),
+            Op::Info { bt, .. } => (
+                self.last_direct_txt.clone(),
+                match block_on(tc.info(*bt)) {
+                    Ok(r) => format!("{} {}", r.version, r.dataset),
+                    Err(_) => "rejected".to_string(),
+                },
+            ),
+            Op::Now { bt, .. } => (
+                self.last_direct_txt.clone(),
+                match block_on(tc.now(*bt)) {
+                    Ok(r) => format!("{} {}", r.now, r.has_next),
+                    Err(_) => "rejected".to_string(),
+                },
+            ),
+        };
+        self.ctx.bump("probe_testclient_twin_requests");
+        let what = match op {
+            Op::Init { .. } => "init",
+            Op::Insert { .. } => "insert_order",
+            Op::Delete { .. } => "delete_order",
+            Op::Tick { .. } => "tick",
+            Op::Fetch { .. } => "fetch_quotes",
+            Op::Info { .. } => "info",
+            Op::Now { .. } => "now",
+        };
+        if mine != theirs {
+            let msg = format!("TestClient answered {what} differently from the in-process AppState after the same history: AppState {mine}, TestClient {theirs} (op {:?})", op);
+            self.ctx.fail("C20", "testclient-diverges", what, msg.clone());
+            self.ctx.fail("C08", "testclient-diverges", what, msg);
         }
     }
 
@@ -260,6 +336,7 @@ impl TwinU {
         match op {
             Op::Init { dataset, .. } => {
                 let d = self.direct.init(dataset);
+                self.last_direct = d.as_ref().map(|x| *x).map_err(|_| 400);
                 let j = self.json.init(dataset);
                 ev!(self.ctx, "init {dataset} -> direct {:?} json {:?}", d.as_ref().map_err(|e| e.status), j.as_ref().map_err(|e| e.status));
                 status_rule(&mut self.ctx, "init", d.is_ok(), &j.as_ref().map(|_| ()).map_err(|e| e.clone()));
@@ -284,18 +361,28 @@ impl TwinU {
                     }
                 };
                 let d = self.direct.insert(&decoded.order, *bt);
+                self.last_direct = d.as_ref().map(|_| 0).map_err(|_| 400);
                 let j = self.json.insert_raw(&body, *bt);
                 ev!(self.ctx, "insert bt={bt} {body} -> direct {:?} json {:?}", d.as_ref().map_err(|e| e.status), j.as_ref().map_err(|e| e.status));
                 status_rule(&mut self.ctx, "insert_order", d.is_ok(), &j);
             }
             Op::Delete { bt, id, .. } => {
                 let d = self.direct.delete(*id, *bt);
+                self.last_direct = d.as_ref().map(|_| 0).map_err(|_| 400);
                 let j = self.json.delete(*id, *bt);
                 ev!(self.ctx, "delete bt={bt} id={id} -> direct {:?} json {:?}", d.as_ref().map_err(|e| e.status), j.as_ref().map_err(|e| e.status));
                 status_rule(&mut self.ctx, "delete_order", d.is_ok(), &j);
             }
             Op::Tick { bt, .. } => {
                 let d = self.direct.tick(*bt);
+                self.last_direct_txt = match &d {
+                    Ok(r) => format!(
+                        "has_next={} trades=[{}] admitted=[{}]", r.has_next,
+                        r.executed_trades.iter().map(crate::e1u_model::fmt_trade).collect::<Vec<_>>().join(","),
+                        r.inserted_orders.iter().map(crate::e1u_model::fmt_order).collect::<Vec<_>>().join(",")
+                    ),
+                    Err(_) => "rejected".to_string(),
+                };
                 let j = self.json.tick(*bt);
                 ev!(
                     self.ctx, "tick bt={bt} -> direct {:?} json {:?}",
@@ -340,6 +427,7 @@ impl TwinU {
             }
             Op::Fetch { bt, .. } => {
                 let d = self.direct.fetch(*bt);
+                self.last_direct_txt = d.as_ref().map_or("rejected".to_string(), |q| crate::e1u::canon_quotes(&q.quotes));
                 let j = self.json.fetch(*bt);
                 ev!(self.ctx, "fetch bt={bt} -> direct {:?} json {:?}", d.as_ref().map(|q| q.quotes.len()).map_err(|e| e.status), j.as_ref().map(|q| q.quotes.len()).map_err(|e| e.status));
                 status_rule(&mut self.ctx, "fetch_quotes", d.is_ok(), &j.as_ref().map(|_| ()).map_err(|e| e.clone()));
@@ -354,6 +442,7 @@ impl TwinU {
             }
             Op::Info { bt, .. } => {
                 let d = self.direct.info(*bt);
+                self.last_direct_txt = d.as_ref().map_or("rejected".to_string(), |i| format!("{} {}", i.version, i.dataset));
                 let j = self.json.info(*bt);
                 ev!(self.ctx, "info bt={bt} -> direct {:?} json {:?}", d.as_ref().map(|i| i.dataset.clone()).map_err(|e| e.status), j.as_ref().map(|i| i.dataset.clone()).map_err(|e| e.status));
                 status_rule(&mut self.ctx, "info", d.is_ok(), &j.as_ref().map(|_| ()).map_err(|e| e.clone()));
@@ -364,6 +453,7 @@ impl TwinU {
             Op::Now { bt, .. } => {
                 // in-process reference: what TestClient::now computes from the public state
                 let d = self.direct.now(*bt);
+                self.last_direct_txt = d.as_ref().map_or("rejected".to_string(), |n| format!("{} {}", n.now, n.has_next));
                 let j = self.json.now(*bt);
                 ev!(self.ctx, "now bt={bt} -> direct {:?} json {:?}", d.as_ref().map(|n| (n.now, n.has_next)).map_err(|e| e.status), j.as_ref().map(|n| (n.now, n.has_next)).map_err(|e| e.status));
                 status_rule(&mut self.ctx, "now", d.is_ok(), &j.as_ref().map(|_| ()).map_err(|e| e.clone()));
@@ -372,6 +462,7 @@ impl TwinU {
                 }
             }
         }
+        self.test_client_twin(op);
         // both servers must be in the same state after every request (rejected ones change nothing)
         let (a, b) = (digest_u(&self.direct), digest_u(&self.json));
         rule!(self.ctx, "C20", "state-diverged", "uist", a == b, "after {:?} the state behind the HTTP service differs from the in-process twin", op);
